@@ -86,7 +86,7 @@ def case_config(sp):
     c1, c2, c3, a, b = _scales(m)
     pref = choice(2, "pref")
     u = [named(f"u{i}") for i in range(m)]
-    equivariant_pinv(sp, [(lambda U0: U0, lambda X0: X0)])
+    st = equivariant_pinv(sp, [(lambda U0: U0, lambda X0: X0)])
     A = ConFIG(pref_vector=T(u) if pref else None)
     # non-zero rows: the unit vectors are defined
     for i in range(m):
@@ -96,7 +96,13 @@ def case_config(sp):
         return dict(kind="scaling_linear_entry", agg="config", **cex_values(model, J=J, c1=c1, c2=c2, a=a, b=b, pref=u if pref else None))
     if any(isinstance(x, Sp) for o in outs for x in o):
         return [Ob("finite[config]", False, cex)]
-    return [Ob("linear_under_row_scaling[config]", eq_all(outs[2], [a * x + b * y for x, y in zip(outs[0], outs[1])]), cex)]
+    obs = [Ob("linear_under_row_scaling[config]", eq_all(outs[2], [a * x + b * y for x, y in zip(outs[0], outs[1])]), cex)]
+    # the matrix handed to the pseudo-inverse consists of the UNIT rows of diag(c) J, whatever the (positive) scaling: this is what makes ConFIG linear in c
+    for run, (c, arg) in enumerate(zip((c1, c2, c3), st["args"])):
+        for i in range(m):
+            nrm = dot(J[i], J[i]).sqrt() * c[i]
+            obs.append(Ob("config_normalises_every_nonzero_row", eq_all([x * nrm for x in arg[i]], [c[i] * x for x in J[i]]), cex))
+    return obs
 
 
 def case_entry(sp, agg):
